@@ -141,6 +141,16 @@ func regionAxiom(key string, v *Term, alloc, arrAlloc *Term) *Term {
 		b := Const("r!", SRef)
 		return Forall([]Bind{{"r!", SRef}}, And(wfSlice(Sel(v, b)), Or(Eq(SArr(Sel(v, b)), IntLit(0)), Sel(arrAlloc, SArr(Sel(v, b))))))
 	}
+	if strings.HasPrefix(key, "MapVal$") && arrAlloc != nil {
+		// slices held as map values are well-formed and point to allocated arrays (or are nil)
+		if k1, inner, ok1 := splitArrSort(v.Sort); ok1 {
+			if k2, vs2, ok2 := splitArrSort(inner); ok2 && vs2 == SSlice {
+				a, i := Const("m!", k1), Const("k!", k2)
+				e := Sel(Sel(v, a), i)
+				return Forall([]Bind{{"m!", k1}, {"k!", k2}}, And(wfSlice(e), Or(Eq(SArr(e), IntLit(0)), Sel(arrAlloc, SArr(e)))), []*Term{e})
+			}
+		}
+	}
 	if key == mapLenKey {
 		b := Const("m!", SRef)
 		return Forall([]Bind{{"m!", SRef}}, App(">=", SBool, Sel(v, b), IntLit(0)))
@@ -721,6 +731,9 @@ func (x *Xlat) appendOne(st *State, s *Term, v *Term, et types.Type) *Term {
 	touched := Or(And(inPlace, Eq(SArr(tb), SArr(s)), Eq(App("+", SInt, SOff(tb), jb), App("+", SInt, SOff(s), SLen(s)))),
 		And(Not(inPlace), Eq(SArr(tb), a)))
 	st.assume(Forall([]Bind{{"t!", SSlice}, {"j!", SInt}}, Imp(Not(touched), Eq(lhs2, x.atTerm(h, tb, jb, es))), []*Term{lhs2}))
+	// the cell written in place holds v, through whichever slice over the same array it is read
+	inCell := And(inPlace, Eq(SArr(tb), SArr(s)), Eq(App("+", SInt, SOff(tb), jb), App("+", SInt, SOff(s), SLen(s))))
+	st.assume(Forall([]Bind{{"t!", SSlice}, {"j!", SInt}}, Imp(inCell, Eq(lhs2, v)), []*Term{lhs2}))
 	return res
 }
 
